@@ -123,6 +123,26 @@ fn judge_plain(ctx: &mut Ctx, externs: &ExternSignatureMap, i: &Instruction, tex
                         Instruction::CircuitDefinition(c) => Some(&c.instructions),
                         _ => None,
                     };
+                    // Same reading for the definition's own expressions: a calibration definition
+                    // that reports accesses at all reads what its identifier's parameter
+                    // expressions reference, at any nesting depth ("including those referenced in
+                    // its expressions").
+                    if let (Instruction::CalibrationDefinition(c), false) = (i, reported.is_empty()) {
+                        let mut refs = Set::new();
+                        for e in &c.identifier.parameters {
+                            crate::gen::analysis_ast::expr_regions(e, &mut refs);
+                        }
+                        if !refs.is_empty() {
+                            ctx.count("definition:identifier-parameter-references-checked");
+                        }
+                        if let Some(r) = refs.difference(&got.reads).next() {
+                            let compound = c.identifier.parameters.iter().any(|e| !matches!(e, quil_rs::expression::Expression::Address(_)));
+                            ctx.violation(
+                                &format!("definition-misses-a-reference-of-its-identifier-parameters:{k}:{}", if compound { "compound-expression" } else { "bare-reference" }),
+                                json!({"region": r, "referenced_by_parameters": refs, "definition_reports": all}),
+                            );
+                        }
+                    }
                     if let (Some(body), false) = (body, reported.is_empty()) {
                         ctx.count("definition:compositional-clause-checked");
                         for b in body {
